@@ -279,6 +279,9 @@ def gen_script(rng, knobs):
         script.append(["gap", rng.choice([20, 45, 90, 300])])
         if rng.random() < 0.35:
           script += [["ctl", "EDM"], ["gap", rng.choice([20, 30, 120])]]
+        elif rng.random() < 0.12:
+          # flip the memories back without loading anything: the previous caption returns
+          script += [["ctl", "EOC"], ["gap", rng.choice([20, 45, 90])]]
     elif style == "roll":
       depth = rng.choice([2, 3, 4])
       script.append(["ctl", "RU%d" % depth])
@@ -314,6 +317,7 @@ def gen_script(rng, knobs):
       script += [["ctl", "EDM"], ["gap", rng.choice([20, 30, 120])]]
       if rng.random() < 0.5:
         script.append(["ctl", "ENM"])
-  # leave the last caption on screen for a while, then erase it
-  script += [["gap", rng.choice([30, 90])], ["ctl", "EDM"], ["gap", 20]]
+  # leave the last caption on screen for a while, then erase it - or let the file end with it displayed
+  if rng.random() < 0.7:
+    script += [["gap", rng.choice([30, 90])], ["ctl", "EDM"], ["gap", 20]]
   return script
